@@ -475,6 +475,14 @@ func (r *run) checkAll(step string) {
 		}
 		fp := r.class(o)
 		a := r.addr(o)
+		if r.objExpired(o) && r.anyNoMeta() && len(r.knowers(o)) == 0 {
+			// the object's own expiration has passed and every shard that knows the
+			// lock runs without metabase: the engine cannot see the lock (and GC
+			// "removes without full locking check") – nothing can be demanded any more
+			r.labels["expired-object-lock-knowers-degraded(not-asserted)"] = true
+			r.poisoned[o] = "expired while every shard knowing the lock had no metabase"
+			continue
+		}
 		holders := r.e.Holders(a)
 		allDeg := len(holders) > 0
 		for _, k := range holders {
